@@ -4,6 +4,7 @@
 
 use crate::batch::{Stats, Tier, Verdict, Violation, World};
 use crate::geom::{self, Operand};
+use crate::heap::{self, Policy};
 use crate::rng::{LogHash, Rng};
 use crate::simhooks::{self, Outcome};
 use geo_booleanop::boolean::{BooleanOp, Operation};
@@ -45,6 +46,7 @@ pub struct C09World {
     pub pairing: u8,
     pub ops: Vec<u8>,
     pub tag: String,
+    pub hash_seed: u64,
 }
 
 struct Run {
@@ -57,7 +59,7 @@ struct Run {
 fn exec(w: &C09World, op: u8, no_shortcut: bool, no_early: bool, with_handler: bool) -> Run {
     if !with_handler {
         simhooks::uninstall();
-        let out = simhooks::guarded(|| call(&w.a, &w.b, OPS[op as usize], w.pairing, w.f32_));
+        let out = heap::with_policy(Policy::CANON, || simhooks::guarded(|| call(&w.a, &w.b, OPS[op as usize], w.pairing, w.f32_)));
         return Run { out, shortcut: false, early: false, events: 0 };
     }
     let h = simhooks::handler();
@@ -68,7 +70,7 @@ fn exec(w: &C09World, op: u8, no_shortcut: bool, no_early: bool, with_handler: b
     h.no_early.set(no_early);
     h.shortcut_fired.set(0);
     h.early_fired.set(0);
-    let out = simhooks::guarded(|| call(&w.a, &w.b, OPS[op as usize], w.pairing, w.f32_));
+    let out = heap::with_policy(Policy::CANON, || simhooks::guarded(|| call(&w.a, &w.b, OPS[op as usize], w.pairing, w.f32_)));
     Run { out, shortcut: h.shortcut_fired.get() > 0, early: h.early_fired.get() > 0, events: h.events.get() }
 }
 
@@ -190,8 +192,17 @@ impl World for C09World {
         let g = 8 + r.below(8) as i64;
         // calibration aid only (never set by a registered check): the inexact lattice-star family
         let stars = std::env::var("VERIF_C09_FAMILY").map(|v| v == "stars").unwrap_or(false);
-        let mut a = if stars { geom::gen_valid_star_operand(&mut r, g) } else { geom::gen_rect_operand(&mut r, g, 4) };
-        let mut b = if stars { geom::gen_valid_star_operand(&mut r, g) } else { geom::gen_rect_operand(&mut r, g, 4) };
+        let mut fam = |r: &mut Rng| {
+            if stars {
+                geom::gen_valid_star_operand(r, g)
+            } else if r.chance(2, 5) {
+                geom::gen_ortho_operand(r, g)
+            } else {
+                geom::gen_rect_operand(r, g, 4)
+            }
+        };
+        let mut a = fam(&mut r);
+        let mut b = fam(&mut r);
         let sides = ["left", "right", "below", "above"];
         let kind = r.below(10);
         let tag;
@@ -257,13 +268,13 @@ impl World for C09World {
         if ops.is_empty() {
             ops.push(r.below(4) as u8);
         }
-        C09World { a, b, f32_, pairing: r.below(4) as u8, ops, tag }
+        C09World { a, b, f32_, pairing: r.below(4) as u8, ops, tag, hash_seed: Rng::stream(seed, "hashkeys").next() }
     }
 
     fn to_json(&self) -> Value {
         json!({"subject": geom::operand_json(&self.a), "clip": geom::operand_json(&self.b), "float": if self.f32_ { "f32" } else { "f64" },
             "pairing": self.pairing, "pairing_name": PAIRINGS[self.pairing as usize], "ops": self.ops.iter().map(|o| OP_NAMES[*o as usize]).collect::<Vec<_>>(),
-            "placement": self.tag, "subject_wkt": geom::wkt(&self.a), "clip_wkt": geom::wkt(&self.b)})
+            "placement": self.tag, "hash_key_seed": self.hash_seed.to_string(), "subject_wkt": geom::wkt(&self.a), "clip_wkt": geom::wkt(&self.b)})
     }
 
     fn from_json(v: &Value) -> Result<Self, String> {
@@ -274,12 +285,15 @@ impl World for C09World {
             pairing: v["pairing"].as_u64().unwrap_or(0) as u8,
             ops: v["ops"].as_array().ok_or("ops")?.iter().filter_map(|o| OP_NAMES.iter().position(|n| Some(*n) == o.as_str()).map(|i| i as u8)).collect(),
             tag: v["placement"].as_str().unwrap_or("").to_string(),
+            hash_seed: v["hash_key_seed"].as_str().and_then(|s| s.parse().ok()).unwrap_or(0),
         })
     }
 
     fn run(&self, st: &mut Stats) -> Verdict {
         let mut log = LogHash::new();
         let mut violation = None;
+        heap::set_hash_seed(self.hash_seed); // this (fresh) thread's hash keys are part of the world
+        let _ = heap::reset(self.hash_seed); // library calls run on the canonical simulated heap, never on the system allocator
         st.inc("worlds");
         st.inc(&format!("float_{}", if self.f32_ { "f32" } else { "f64" }));
         for op in &self.ops {
